@@ -1,8 +1,8 @@
 """Child process: runs femio's graph-matrix methods on the meshes/queries read
 from stdin (JSON) and writes, per query, shape + COO triples (exact integers)
 or the exception class, to the file named in the spec.  A FRESH FEMData object
-is built for every query (the lru_caches on these methods are never
-invalidated — C19's business)."""
+is built for every query; cases marked `shared` run their whole query sequence
+on ONE object (no mesh modification in between: the answers must be the same)."""
 import contextlib
 import io
 import json
@@ -58,6 +58,9 @@ def run_query(fd, q):
     if k == 'adj':
         if q.get('via') == 'dispatch':
             return fd.calculate_adjacency_matrix(mode=md, order1_only=q['order1'])
+        if q.get('via') == 'noarg' and not q['order1']:
+            return fd.calculate_adjacency_matrix_node() if q['nodal'] \
+                else fd.calculate_adjacency_matrix_element()
         if q['nodal']:
             return fd.calculate_adjacency_matrix_node(order1_only=q['order1'])
         return fd.calculate_adjacency_matrix_element(order1_only=q['order1'])
@@ -82,11 +85,19 @@ def main():
         types = list(FEMElementalAttribute.ELEMENT_TYPES)
         for case in spec['cases']:
             res = []
+            shared = None
+            if case.get('shared'):
+                # one object for the whole query sequence: the answers must not
+                # depend on what was asked before
+                try:
+                    shared = build(case['mesh'])
+                except Exception:  # noqa
+                    shared = None
             for q in case['queries']:
                 sink.seek(0)
                 sink.truncate()
                 try:
-                    fd = build(case['mesh'])
+                    fd = shared if shared is not None else build(case['mesh'])
                     M = run_query(fd, q)
                     r = triples(M)
                     if q['kind'] in ('inc', 'adj'):
